@@ -17,6 +17,8 @@ def main():
             rc = mod.replay(a.replay)
         else:
             rc = mod.run()
+    except core.TooManyViolations:
+        rc = core.CURRENT.finish()
     except core.MachineryError as e:
         print("MACHINERY-FAILURE %s: %s" % (a.pid, e))
         rc = 2
